@@ -5,8 +5,14 @@ EXTENDS AccessLog, Json, TLC
 
 Tok(k, v, lead, canon) == [k |-> k, v |-> v, lead |-> lead, canon |-> canon]
 FieldTok(f) == Tok("field", f, "-", "-")
+\* literal text is arbitrary UTF-8, not only ASCII.  <uXXXX> stands for the code point U+XXXX (the
+\* binding expands it in formats and expected lines alike, so the specification does not depend on
+\* the character encoding the JVM reads its sources with): multi-byte characters before, after
+\* and between fields.  No such character is a letter of a field name.
+MCUnicodeText == { Tok("text", "<u00B5>s", "sep", "-"), Tok("text", " <u2713>", "sep", "-"),
+                   Tok("text", "<u00FC>=<u65E5><u672C> ", "sep", "-"), Tok("text", "<u1F600>", "sep", "-") }
 MCTextTokens == { Tok("text", " ", "sep", "-"), Tok("text", " - [", "sep", "-"), Tok("text", "\"", "sep", "-"),
-                  Tok("text", "x=", "id", "-"), Tok("text", "] ", "sep", "-") }
+                  Tok("text", "x=", "id", "-"), Tok("text", "] ", "sep", "-") } \cup MCUnicodeText
 MCOddTokens  == { Tok("dollar", "$", "-", "-"),
                   Tok("unknown", "$nope", "-", "-"), Tok("unknown", "$request_urix", "-", "-"),
                   Tok("unknown", "$header", "-", "-"), Tok("hdrdot", "$header.", "-", "-") }
@@ -19,9 +25,9 @@ MCTokens == {FieldTok(f) : f \in KnownFields} \cup MCTextTokens \cup MCOddTokens
 MCDeepSmall == { FieldTok("$remote_host"), FieldTok("$response_time_us"), FieldTok("$upstream_port"),
                  Tok("text", " ", "sep", "-"), Tok("text", "x=", "id", "-"),
                  Tok("dollar", "$", "-", "-"), Tok("hdrdot", "$header.", "-", "-"),
-                 Tok("header", "$header.referer", "-", "Referer") }
+                 Tok("header", "$header.referer", "-", "Referer"), Tok("text", "<u00B5>s", "sep", "-"), Tok("text", " <u2713>", "sep", "-") }
 MCDeepQuick == { FieldTok("$upstream_host"), Tok("text", " ", "sep", "-"), Tok("dollar", "$", "-", "-"),
-                 Tok("unknown", "$nope", "-", "-") }
+                 Tok("unknown", "$nope", "-", "-"), Tok("text", "<u00B5>s", "sep", "-") }
 
 T(Y, M, D, h, m, s, ns) == [Y |-> Y, M |-> M, D |-> D, h |-> h, m |-> m, s |-> s, ns |-> ns]
 A(form, h, p) == [form |-> form, h |-> h, p |-> p]
@@ -179,4 +185,20 @@ XGenInit == Init /\ fmt \in XFormats
 XGenSpec == XGenInit /\ [][XGenNext]_vars
 PrintExchanges == (pc = "build" /\ fmt = CHOOSE f \in XFormats : TRUE) =>
                       PrintT(ToJson([exchanges |-> {XJson(x) : x \in Exchanges}]))
+
+\* histories: one proxy + logger serves several exchanges of different kinds one after the other
+HistReq == R("GET", FALSE, "x", "", "front.example", FALSE)
+MCHistExchanges == { X("proxied", HistReq, <<>>, 200, "length", <<5000>>, tg) : tg \in MCTargets }
+              \cup { X("proxied", HistReq, <<103>>, 404, "chunked", <<1>>, CHOOSE tg \in MCTargets : tg.prefix = "/t2/") }
+              \cup { X("refused", HistReq, <<>>, 502, "length", <<>>, Down), X("noroute", HistReq, <<>>, 404, "length", <<>>, NoRt),
+                     X("redirect", HistReq, <<>>, 301, "length", <<>>, Redir) }
+MCExchangesQuickH == MCExchangesQuick \cup MCHistExchanges
+MCExchangesH == MCExchanges \cup MCHistExchanges
+StatusOnly == <<FieldTok("$response_status")>>
+XHistInit == Init /\ fmt = StatusOnly
+XHistNext == \/ Parse
+             \/ \E x \in Exchanges : Serve(x)
+             \/ \E x \in Exchanges : ServeAgain(x) /\ (Len(served') = MaxServes - 1 =>
+                                                            PrintT(ToJson([xhist |-> served' \o <<xch'>>])))
+XHistSpec == XHistInit /\ [][XHistNext]_vars
 =============================================================================
